@@ -72,6 +72,7 @@ def normalize_node(n):
     n.setdefault("pure", False)
     n.setdefault("mayfail", False)        # HGSteps: TLC may inject a failure at any invocation of this node
     n.setdefault("pause_at", [])
+    n.setdefault("answers", [])           # interrupt: texts of the answers per data output (default ans.<node>.<output>)
     n.setdefault("fn", "term")
     n.setdefault("cache", False)
     n.setdefault("tname", n["name"])      # the name the wrapped function knows itself by (appears in returned values)
@@ -141,6 +142,19 @@ def canon(v):
     if isinstance(v, (list, tuple)):
         return "[" + ";".join(canon(x) for x in v) + "]"
     return repr(v)
+
+
+# texts that stand for FALSY python values when used as the answer of an interrupt
+FALSY = {"": "", "[]": [], "0": 0, "False": False}
+
+
+def answer_text(nd, j):
+    return nd["answers"][j] if nd.get("answers") else f"ans.{nd['name']}.{nd['outputs'][j]}"
+
+
+def pyval(text):
+    v = FALSY.get(text, text)
+    return list(v) if isinstance(v, list) else v
 
 
 def assign_fids(p, prefix=""):
